@@ -251,6 +251,14 @@ func VerifRun_C18d() {
 	fn := string([]byte{byte(verifConcretize(int(verifByteIn("fn", "xy"))))})
 	files := []string{"/w/m.lua"}
 	srcs := [][]byte{nil}
+	if verifBool("libfile") { // /w/lib/<fn>.lua
+		files = append(files, "/w/lib/"+fn+".lua")
+		srcs = append(srcs, []byte("return 4\n"))
+	}
+	if verifBool("deepfile") { // /w/<fn>/ext/<fn>.lua: the module name occurs earlier in the path as well
+		files = append(files, "/w/"+fn+"/ext/"+fn+".lua")
+		srcs = append(srcs, []byte("return 5\n"))
+	}
 	if verifBool("flatfile") { // /w/<fn>.lua
 		files = append(files, "/w/"+fn+".lua")
 		srcs = append(srcs, []byte("return 1\n"))
